@@ -349,8 +349,10 @@ class Polygon(Shape2D):
         diag_sums = areas[:, np.newaxis] * (verts_sq + prod + sv_sq)
         i_y, i_x, _ = np.abs(np.sum(diag_sums, axis=0) / 12)
 
+        # The product of inertia can have either sign, so instead of an absolute value
+        # the orientation of the vertices is divided out.
         xy_sums = areas * (xi_yip1 + 2 * (xi_yi + xip1_yip1) + xip1_yi)
-        i_xy = np.abs(np.sum(xy_sums) / 24)
+        i_xy = np.sum(xy_sums) / 24 * np.sign(self.signed_area)
 
         return i_x, i_y, i_xy
 
